@@ -225,3 +225,61 @@ pub fn seeds(u: &Universe, thorough: bool, only_small: bool) -> Vec<Seed> {
     }
     v
 }
+
+/// Ladder family: for EVERY n up to n_max a cache filled by n fresh insertions
+/// (table at its natural capacity for n, and a second root created
+/// with_capacity(n)), each explored for one step over a generic alphabet.
+/// Covers numeric coincidences of len and capacity that the fixed seed list
+/// does not hit (e.g. len 26 or 27 in a table of capacity 28).
+pub fn ladder(u: &Universe, hk: HK, n_max: usize) -> (Vec<Root>, Vec<Op>) {
+    let mut roots = vec![];
+    for n in 0..=n_max {
+        for cap in [None, Some(n as u32)] {
+            if cap == Some(0) {
+                continue;
+            }
+            let cfg = Config { hk, cap, limit: usize::MAX };
+            let prefix: Vec<Op> = (0..n).map(|i| Op::InsertRaw { k: F0 + i as u16, vheap: filler_heap(i) }).collect();
+            roots.push(Root { cfg, prefix, label: format!("ladder n={n} {}", cfg.show()) });
+        }
+    }
+    let last = (u.vheaps.len() - 1) as u8;
+    let mut alpha = vec![
+        Op::Insert { k: 0, h: 0 },
+        Op::Insert { k: 1, h: 2 },
+        Op::Insert { k: F0, h: 1 },
+        Op::Insert { k: F0 + 1, h: last },
+        Op::TryInsert { k: 2, h: 0 },
+        Op::TryInsert { k: F0, h: 0 },
+        Op::Get { k: F0, b: true },
+        Op::Get { k: 0, b: false },
+        Op::Touch { k: F0 + 1, b: false },
+        Op::Remove { k: F0, b: false },
+        Op::Remove { k: F0 + 2, b: true },
+        Op::Mutate { k: F0, h: 2, b: true },
+        Op::Mutate { k: F0 + 1, h: last, b: false },
+        Op::GetLru,
+        Op::RemoveLru,
+        Op::RemoveMru,
+        Op::Clear,
+        Op::RetainMod { m: 2, r: 0 },
+        Op::RetainMod { m: 5, r: 1 },
+        Op::Reserve { a: 0 },
+        Op::Reserve { a: 1 },
+        Op::Reserve { a: 2 },
+        Op::TryReserve { a: 1 },
+        Op::TryReserve { a: 3 },
+        Op::ShrinkTo { m: 0 },
+        Op::ShrinkTo { m: 1 },
+        Op::ShrinkTo { m: 2 },
+        Op::ShrinkTo { m: 3 },
+        Op::ShrinkToFit,
+        Op::CloneSwap,
+        Op::Drain { pat: 1 },
+        Op::SetMaxRaw { v: 0 },
+    ];
+    for l in 0..u.limits.len() as u8 {
+        alpha.push(Op::SetMax { l });
+    }
+    (roots, alpha)
+}
